@@ -142,7 +142,14 @@ static flatcc_builder_union_vec_ref_t build_uvec(node_t *x, int style)
         API; if (flatcc_builder_start_union_vector(B)) { free(ur); FAILJ; }
         for (i = 0; i < x->n; ++i) {
             flatcc_builder_union_ref_t u; u.type = (flatcc_builder_utype_t)x->kid_type[i]; u.value = build_val(x->kid[i], style);
-            API; if (!flatcc_builder_union_vector_push(B, u)) { free(ur); FAILJ; }
+            if (style == 2 && i == x->n / 2) {   /* junk entries pushed / extended, then truncated away before the remaining elements */
+                flatcc_builder_union_ref_t junk, *p; junk.type = 0; junk.value = 0;
+                API; if (!flatcc_builder_union_vector_push(B, junk)) { free(ur); FAILJ; }
+                API; if (!(p = flatcc_builder_extend_union_vector(B, 2))) { free(ur); FAILJ; } p[0] = junk; p[1] = junk;
+                API; if (flatcc_builder_truncate_union_vector(B, 3)) { free(ur); FAILJ; }
+            }
+            if (style == 2 && (i & 1)) { API; if (!flatcc_builder_append_union_vector(B, &u, 1)) { free(ur); FAILJ; } }
+            else { API; if (!flatcc_builder_union_vector_push(B, u)) { free(ur); FAILJ; } }
         }
         API; uv = flatcc_builder_end_union_vector(B);
     }
